@@ -2,4 +2,5 @@
 # Builds every engine from files on disk (offline).
 set -e
 /verif/engines/build.sh rel-small >/dev/null 2>&1 || { /verif/engines/build.sh rel-small | tail -30; exit 1; }
+/verif/engines/build.sh dwmc >/dev/null 2>&1 || { /verif/engines/build.sh dwmc | tail -30; exit 1; }
 echo "setup ok"
